@@ -238,7 +238,17 @@ func (m *M) silent(p *SP, lazyCopy bool) bool {
 		for _, n := range p.names {
 			if !m.dropped[n] {
 				live = append(live, n)
-			} else {
+			}
+		}
+		if len(live) > 0 && len(live) != len(p.names) {
+			// some, not all, of its names have been dropped: forgetting them without copying the
+			// process, or copying it first and letting the dropped copy go, are both behaviours
+			// of the interpreters (the copy duplicates the providers of its free names): a choice
+			// for the search (actions aPrune / aCopy), not a silent step
+			return false
+		}
+		for _, n := range p.names {
+			if m.dropped[n] {
 				delete(m.prov, n)
 			}
 		}
@@ -257,10 +267,6 @@ func (m *M) silent(p *SP, lazyCopy bool) bool {
 				}
 			}
 			m.kill(p)
-			return true
-		}
-		if len(live) != len(p.names) {
-			p.names = live
 			return true
 		}
 		return false // waits for its client (or, if multi-named, for its copy: an action)
@@ -688,6 +694,7 @@ const (
 	aSplit
 	aFwd
 	aDrop
+	aPrune // a multi-name process forgets the names that have been dropped
 )
 
 type action struct {
@@ -706,6 +713,19 @@ func (m *M) actions() []action {
 		}
 		_, at := p.selfAction()
 		multi := len(p.names) > 1
+		if multi && at {
+			nd := 0
+			for _, n := range p.names {
+				if m.dropped[n] {
+					nd++
+				}
+			}
+			if nd > 0 && nd < len(p.names) {
+				// listed first: the lazy discipline forgets dropped names instead of copying
+				out = append(out, action{i, aPrune, false}, action{i, aCopy, false})
+				continue
+			}
+		}
 		switch {
 		case multi && p.t.Op == "fwd":
 			if c, ok := p.ch(p.t.Y); ok && m.prov[c] != nil {
@@ -747,6 +767,17 @@ func (m *M) apply(a action) string {
 		m.doFwd(p)
 		m.Steps++
 		m.compact()
+	case aPrune:
+		var live []int
+		for _, n := range p.names {
+			if m.dropped[n] {
+				delete(m.prov, n)
+			} else {
+				live = append(live, n)
+			}
+		}
+		p.names = live
+		m.Steps++
 	case aDrop:
 		c, _ := p.ch(p.t.X)
 		m.dropped[c] = true
@@ -781,6 +812,9 @@ func MS(labels []string) string {
 	}
 	return b.String()
 }
+
+// DebugNoMemo switches the memo of Admits off (development aid).
+var DebugNoMemo bool
 
 type Search struct {
 	States   int
@@ -899,7 +933,7 @@ func (m *M) Admits(sigma []string, s *Search) (bool, bool) {
 			return true
 		}
 		k := mk{c.key(), i}
-		if r, ok := memo[k]; ok {
+		if r, ok := memo[k]; ok && !DebugNoMemo {
 			return r
 		}
 		s.States++
